@@ -24,6 +24,25 @@ Theorem C20_order_total : forall k1 t1 k2 t2,
 Proof. exact C20Proofs.key_order_eq. Qed.
 Print Assumptions C20_order_total.
 
+(* ... and is a strict total order (what sorting, binary search and merging rely on): reversing the
+   arguments reverses the result, and "before" is transitive *)
+Theorem C20_order_antisym : forall k1 t1 k2 t2,
+  key_order k2 t2 k1 t1 = CompOpp (key_order k1 t1 k2 t2).
+Proof. exact C20Proofs.key_order_antisym. Qed.
+Print Assumptions C20_order_antisym.
+
+Theorem C20_order_trans : forall k1 t1 k2 t2 k3 t3,
+  key_order k1 t1 k2 t2 = Lt -> key_order k2 t2 k3 t3 = Lt -> key_order k1 t1 k3 t3 = Lt.
+Proof. exact C20Proofs.key_order_trans_lt. Qed.
+Print Assumptions C20_order_trans.
+
+(* the encoding is injective (also for the empty user key): two (key, version) pairs never share
+   an internal key *)
+Theorem C20_key_encoding_injective : forall k1 t1 k2 t2, t1 < two64 -> t2 < two64 ->
+  key_with_ts k1 t1 = key_with_ts k2 t2 -> k1 = k2 /\ t1 = t2.
+Proof. exact C20Proofs.key_with_ts_inj. Qed.
+Print Assumptions C20_key_encoding_injective.
+
 Theorem C20_same_key : forall k1 t1 k2 t2,
   same_key (key_with_ts k1 t1) (key_with_ts k2 t2) = bytes_eqb k1 k2.
 Proof. exact C20Proofs.same_key_spec. Qed.
